@@ -1,11 +1,12 @@
 """C20 - reports are faithful: events lossless, statistics and tallies correct."""
 
 import ast
+import re
 
 from .. import AnalysisError
 from ..cfg import ALL_KINDS, NORMAL_KINDS, iter_own
 from ..guards import canon
-from ..lib import guard_forms, key_of, render
+from ..lib import inlined, guard_forms, key_of, render
 from ..report import describe, rule
 
 P = "C20"
@@ -173,14 +174,21 @@ def c20_1(ctx, r):
             if keys and isinstance(keys[0], ast.Constant) and keys[0].value == "average" and base in want:
                 seen.add(base)
                 v = n.value
-                okd = isinstance(v, ast.BinOp) and isinstance(v.op, ast.Div) and ast.unparse(v.right) == want[base] and ast.unparse(v.left) == "val"
+                # roles: numerator = the value variable of the innermost `for <k>, <v> in <...>.items()` loop; for the per-process table the
+                # divisor is indexed by the same key variable that indexes the average being stored
+                lps = ctx.enclosing(fin, n, (ast.For,))
+                num = ast.unparse(lps[0].target.elts[1]) if lps and isinstance(lps[0].target, ast.Tuple) and len(lps[0].target.elts) == 2 else None
+                wantd = want[base]
+                if "[process_name]" in wantd and len(keys) >= 2:
+                    wantd = wantd.replace("process_name", ast.unparse(keys[1]))
+                okd = isinstance(v, ast.BinOp) and isinstance(v.op, ast.Div) and ast.unparse(v.right) == wantd and num is not None and ast.unparse(v.left) == num
                 r.check(okd, f"{base}: average = sum / {want[base]}", key_of(fin, f"{base} average divisor"), fin.loc(n),
                         f"{base}['average'] is computed as `{ast.unparse(v)}`; the sum it divides was accumulated once per `{want[base]}` increment, so any other divisor gives a wrong mean "
                         "(a process that was not sampled in every interval gets too small an average)", "report the true minimum, maximum and mean of the samples taken")
     r.check(seen == set(want), "both average tables are computed in finalize", key_of(fin, "average tables"), fin.loc(), f"average computed for {sorted(seen)} only")
     # the per-process counter advances exactly where the per-process sum does
     src = ast.unparse(fn.node)
-    r.check("self._process_sample_count[process_name] += 1" in src and "self._process_sample_count[process_name] = 1" in src, "the per-process sample counter advances with the per-process sum", key_of(fn, "process sample count"), fn.loc(),
+    r.check(bool(re.search(r"self\._process_sample_count\[(\w+)\] \+= 1", src)) and bool(re.search(r"self\._process_sample_count\[(\w+)\] = 1", src)), "the per-process sample counter advances with the per-process sum", key_of(fn, "process sample count"), fn.loc(),
             "the per-process sample counter is not advanced together with the per-process sum")
 
 
@@ -329,7 +337,7 @@ def c20_3(ctx, r):
         for n in ast.walk(lp):
             if isinstance(n, ast.If):
                 tests.add(ast.unparse(n.test))
-        want = {f"result.{p}()" for p in ("is_successful", "is_failed")}
+        want = {f"{ast.unparse(lp.target)}.{p}()" for p in ("is_successful", "is_failed")}
         r.check(want <= tests, f"{fn.short}: classes are decided by Result.is_successful / is_failed (else canceled, asserted)", key_of(fn, "tally predicates"), fn.loc(lp),
                 f"tally branches test {sorted(tests)}")
     # num_missing = len(missing_jobs)
@@ -345,7 +353,13 @@ def c20_4(ctx, r):
     r.check(not skips, "no conditional skip / swallow in the consolidation loops", key_of(fn, "conditional skip"), fn.loc(skips[0]) if skips else fn.loc(),
             "a branch, continue, break or try inside _consolidate_events can drop events: " + ", ".join(type(s).__name__ for s in skips))
     appends = [n for n in iter_own(fn.node) if isinstance(n, ast.Call) and isinstance(n.func, ast.Attribute) and n.func.attr == "append"]
-    ok = any(ast.unparse(a.func.value) == "self._events[event.name]" and ast.unparse(a.args[0]) == "event" for a in appends)
+    ok = False
+    for a in appends:
+        ev = a.args[0] if a.args else None
+        if isinstance(ev, ast.Name) and ast.unparse(a.func.value) == f"self._events[{ev.id}.name]":
+            for nd in ctx.nodes_of(fn, a):
+                d = inlined(ctx, fn, ev, nd)
+                ok = ok or bool(re.fullmatch(r"deserialize_event\(json\.loads\(\w+\)\)", d or ""))
     r.check(ok, "every deserialised line is appended under its event name", key_of(fn, "append event"), fn.loc(), "_consolidate_events does not append each event under self._events[event.name]")
     loops = [n for n in iter_own(fn.node) if isinstance(n, ast.For)]
     ok_files = any("_iter_event_files" in ast.unparse(l.iter) for l in loops)
@@ -440,7 +454,12 @@ def c20_5(ctx, r):
     ok = any(isinstance(n, ast.If) and ast.unparse(n.test).replace("'", '"') == '"timestamp" in kwargs' and "kwargs.pop" in ast.unparse(n.body[0]) for n in iter_own(init.node))
     r.check(ok, "a timestamp passed in is kept (consolidating again does not re-stamp)", key_of(init, "timestamp"), init.loc(), "StructuredLogEvent.__init__ no longer keeps a passed timestamp", "consolidating again does not change it")
     le = ctx.fn("loggers.log_event", "C20.5")
-    r.check("logger.info(event)" in ast.unparse(le.node) and "_EVENT_LOGGER_NAME" in ast.unparse(le.node), "log_event writes one line per event to the event logger", key_of(le, "log_event"), le.loc(), "log_event changed")
+    okle = False
+    for c in iter_own(le.node):
+        if isinstance(c, ast.Call) and isinstance(c.func, ast.Attribute) and c.func.attr == "info" and len(c.args) == 1 and ast.unparse(c.args[0]) == le.params[0]:
+            for nd in ctx.nodes_of(le, c):
+                okle = okle or inlined(ctx, le, c.func.value, nd) == "logging.getLogger(_EVENT_LOGGER_NAME)"
+    r.check(okle, "log_event writes one line per event to the event logger", key_of(le, "log_event"), le.loc(), "log_event changed")
 
 
 @rule(P, "C20.6", "T2", "one row per job after a resubmission: old rows of every rerun job (dependents included) are pruned before the tallies are rebuilt", min_obligations=2)
@@ -473,3 +492,70 @@ def c20_7(ctx, r):
                 if isinstance(k, ast.Constant) and k.value == "mode" and isinstance(v, ast.Name) and v.id == "mode":
                     ok = True
     r.check(ok, "the handler is configured with the requested mode", key_of(sel, "handler mode"), sel.loc(), "setup_event_logging no longer passes `mode` to the file handler")
+
+
+@rule(P, "C20.8", "T10", "statistics summaries: minimum, maximum and average of one entry are taken over the same sample set", min_obligations=3)
+def c20_8(ctx, r):
+    """Sibling agreement inside each summary builder of jade.resource_monitor: the three `entry[<stat>].update(<frame>[cols].<agg>()...)`
+    statements of one loop body aggregate the same data frame (the per-name group inside a groupby loop)."""
+    n = 0
+    for f in ctx.ix.functions.values():
+        if not f.module.name.endswith("resource_monitor"):
+            continue
+        for lp in [x for x in ast.walk(f.node) if isinstance(x, ast.For)]:
+            ups = {}
+            for st in lp.body:
+                c = st.value if isinstance(st, ast.Expr) else None
+                if isinstance(c, ast.Call) and isinstance(c.func, ast.Attribute) and c.func.attr == "update" and isinstance(c.func.value, ast.Subscript) and isinstance(c.func.value.slice, ast.Constant) \
+                        and c.func.value.slice.value in ("average", "minimum", "maximum") and c.args:
+                    frames = [ast.unparse(x.value) for x in ast.walk(c.args[0]) if isinstance(x, ast.Subscript) and isinstance(x.value, ast.Name)]
+                    aggs = [x.func.attr for x in ast.walk(c.args[0]) if isinstance(x, ast.Call) and isinstance(x.func, ast.Attribute) and x.func.attr in ("mean", "min", "max")]
+                    ups[c.func.value.slice.value] = (frames[0] if frames else None, aggs[0] if aggs else None, st)
+            if len(ups) < 3:
+                continue
+            n += 1
+            frames = {v[0] for v in ups.values()}
+            gv = None
+            if isinstance(lp.iter, ast.Call) and isinstance(lp.iter.func, ast.Attribute) and lp.iter.func.attr == "groupby" and isinstance(lp.target, ast.Tuple):
+                gv = ast.unparse(lp.target.elts[1])
+            ok = len(frames) == 1 and (gv is None or frames == {gv})
+            r.check(ok, f"{f.short}: the three statistics of an entry aggregate one frame", key_of(f, f"statistics over different frames {sorted(str(x) for x in frames)}"), f.loc(ups["maximum"][2]),
+                    f"{f.short} computes average / minimum / maximum of one entry over {sorted(str(x) for x in frames)}" + (f" inside the groupby loop whose group frame is `{gv}`" if gv else "") +
+                    ": one of the statistics is taken over the whole batch instead of this entry's samples", "report the true minimum, maximum and mean of the samples taken")
+            want = {"average": "mean", "minimum": "min", "maximum": "max"}
+            for k, (fr, ag, st) in ups.items():
+                r.check(ag == want[k], f"{f.short}: `{k}` is computed with .{want[k]}()", key_of(f, f"{k} computed with {ag}"), f.loc(st), f"`{ast.unparse(st)[:70]}` computes the {k} with .{ag}()")
+    if n < 1:
+        raise AnalysisError("C20.8", "no summary builder with the three statistics found in jade.resource_monitor")
+
+
+@rule(P, "C20.9", "T3+T6", "events are moved, not copied, into the node log; closing the event log keeps its handler attached", min_obligations=2)
+def c20_9(ctx, r):
+    # (1) JobRunner._aggregate_events: every job event file read into the node log is removed in the same iteration (the job files
+    #     are opened in append mode by the jobs: a rerun of the job in the same output directory would otherwise re-deliver the old events)
+    ag = ctx.fn("JobRunner._aggregate_events", "C20.9")
+    cfg = ctx.cfg(ag)
+    opens = []
+    for lp in [x for x in iter_own(ag.node) if isinstance(x, ast.For)]:
+        for w in [x for x in ast.walk(lp) if isinstance(x, ast.With)]:
+            for it in w.items:
+                c = it.context_expr
+                if isinstance(c, ast.Call) and ast.unparse(c.func) == "open" and c.args and isinstance(c.args[0], ast.Name) and (len(c.args) == 1 or (isinstance(c.args[1], ast.Constant) and "r" in str(c.args[1].value))):
+                    opens.append((lp, w, c.args[0].id))
+    if not opens:
+        raise AnalysisError("C20.9", "_aggregate_events: the read of the per-job event file was not recognised")
+    for lp, w, var in opens:
+        rems = [nd for c in ast.walk(lp) if isinstance(c, ast.Call) and ast.unparse(c.func) in ("os.remove", "os.unlink") and c.args and ast.unparse(c.args[0]) == var for nd in ctx.nodes_of(ag, c)]
+        rems += [nd for c in ast.walk(lp) if isinstance(c, ast.Call) and isinstance(c.func, ast.Attribute) and c.func.attr == "unlink" and ast.unparse(c.func.value) == var for nd in ctx.nodes_of(ag, c)]
+        wn = [nd for nd in cfg.nodes if nd.kind == "with" and nd.ast is w]
+        ok = bool(rems) and bool(wn) and all(__import__("jcheck.lib", fromlist=["always_followed_by"]).always_followed_by(ctx, ag, x, rems, NORMAL_KINDS, exits=[cfg.exit] + [h for h in cfg.nodes if h.kind == "for" and h.ast is lp]) for x in wn)
+        r.check(ok, "a job's event file is removed once its lines were copied into the node log", key_of(ag, f"{var} copied but not removed"), ag.loc(w),
+                f"_aggregate_events copies `{var}` into the node's event log but does not remove it in the same iteration: the job writes that file in append mode, so when the job runs again in this output directory "
+                "(resubmit-jobs) its old events are copied a second time and appear twice in the consolidated summary", "appears exactly once in the consolidated event summary")
+    # (2) close_event_logging only closes: a closed FileHandler reopens (append mode) on the next record, a removed one is gone
+    ce = ctx.fn("loggers.close_event_logging", "C20.9")
+    rm = [c for c in iter_own(ce.node) if isinstance(c, ast.Call) and isinstance(c.func, ast.Attribute) and c.func.attr in ("removeHandler", "clear") or (isinstance(c, ast.Call) and ast.unparse(c.func).endswith("handlers.clear"))]
+    cl = [c for c in iter_own(ce.node) if isinstance(c, ast.Call) and isinstance(c.func, ast.Attribute) and c.func.attr == "close"]
+    r.check(bool(cl) and not rm, "close_event_logging closes the handlers and leaves them attached", key_of(ce, "event handler detached"), ce.loc(rm[0]) if rm else ce.loc(),
+            "close_event_logging detaches the event log handler: in a process that goes on logging events afterwards (local mode: the submitter's completion events follow the runner's aggregation) "
+            "every later event is dropped silently", "Every structured event written by any JADE process of a submission appears exactly once")
